@@ -192,8 +192,8 @@ Definition well_formed (t : tx) : bool :=
   && (t_fee t <=? MAX_COINVAL)
   && (N.of_nat (length (t_outputs t)) <=? 255).
 
-Fixpoint enum_from {A} (i : N) (l : list A) : list (N * A) :=
-  match l with [] => [] | x :: r => (i, x) :: enum_from (i + 1) r end.
+Fixpoint enumerate {A} (i : N) (l : list A) : list (N * A) :=
+  match l with [] => [] | x :: r => (i, x) :: enumerate (i + 1) r end.
 
 Definition fix_denom (t : tx) (d : denom) : denom :=
   match d with NewCustom => Custom (t_hash t) | _ => d end.
@@ -206,7 +206,7 @@ Definition output_coins (height : N) (t : tx) : list (N * cdh) :=
            {| c_data := {| cd_covhash := cd_covhash cd; cd_value := cd_value cd;
                            cd_denom := fix_denom t (cd_denom cd); cd_extra := cd_extra cd |};
               c_height := height |})])
-    (enum_from 0 (t_outputs t)).
+    (enumerate 0 (t_outputs t)).
 
 Definition input_key (i : N * N) : N := coin_key (fst i) (snd i).
 
@@ -462,7 +462,7 @@ Definition apply_one (relevant : gmap N cdh) (tip906 : bool) (t : tx) (n : wstat
   let cn1 := fold_left (fun cn '(i, _) =>
                let k := coin_key (t_hash t) (i mod 256) in
                match relevant !! k with Some c => insert_coin tip906 k c cn | None => cn end)
-             (enum_from 0 (t_outputs t)) cn0 in
+             (enumerate 0 (t_outputs t)) cn0 in
   cn2 <- remove_coins tip906 (map input_key (t_inputs t)) cn1 ;;
   mf <- min_fee (s_fee_mult n) t ;;
   if t_fee t <? mf then Reject EInsufficientFees else
